@@ -16,7 +16,8 @@ ASSUME = [
     "not recorded",
     "one user = one LimitedValve: the multiplex scenarios pass one MakeValve result to every SessionConfig; the server scenarios "
     "obtain the sessions from userPanel.GetUser / ActiveUser.GetSession with a stub user manager that reports the rates "
-    "(the handshake and the bolt database in front of it belong to C06/C07/C16/C18)",
+    "(the handshake and the bolt database in front of it belong to C06/C07/C16/C18); in the racing scenarios the stub holds "
+    "AuthenticateUser until all first connections are inside it, unless the caller holds the panel's lock across the call",
     "time is the virtual clock of testing/synctest: sleepers wake exactly on time. On a real clock a sleeper that wakes late "
     "sends together with the next one: TLC refutes the bound for Prompt = FALSE (excess <= one message per waiter); "
     "scheduling latency is outside the statement",
@@ -31,12 +32,12 @@ W2, W3 = "{w1, w2}", "{w1, w2, w3}"
 
 
 def mc(ctx, tag, waiters, quanta, fis, bursts, backlog, sizes, maxtime, mode="before", capf=1, relax=False,
-       prompt=True, history=False, invs="TypeOK UpperVQ NotStarved", expect_violation=False, workers=2, timeout=1500):
+       prompt=True, history=False, own_bucket=False, invs="TypeOK UpperVQ NotStarved", expect_violation=False, workers=2, timeout=1500):
     return lib.run_tlc(ctx, "TokenBucket", "TokenBucket_mc.cfg",
                        {"WAITERS": waiters, "QUANTA": quanta, "FIS": fis, "BURSTS": bursts, "BACKLOG": backlog,
                         "SIZES": sizes, "MAXTIME": maxtime, "MODE": mode, "CAPFACTOR": capf,
                         "RELAX": "TRUE" if relax else "FALSE", "PROMPT": "TRUE" if prompt else "FALSE",
-                        "HISTORY": "TRUE" if history else "FALSE", "INVS": invs},
+                        "HISTORY": "TRUE" if history else "FALSE", "OWNBUCKET": "TRUE" if own_bucket else "FALSE", "INVS": invs},
                        tag=tag, expect_violation=expect_violation, workers=workers, timeout=timeout)
 
 
@@ -79,6 +80,9 @@ def run(ctx):
                                               capf=2, **neg_args),
         "neg_lowrate_unrelaxed": pool.submit(mc, ctx, "neg_lowrate_unrelaxed", W2, "{1}", "{1, 2}", "{2, 3}", "{0, 1}", "{1, 3, 5}", 10,
                                              relax=False, **neg_args),
+        # the "one bucket per user" assumption: a bucket per session / per user record lets the user have a multiple
+        "neg_bucket_per_waiter": pool.submit(mc, ctx, "neg_bucket_per_waiter", W2, "{1, 2}", "{1, 2}", "{3, 4}", "{0, 1}", "{1, 2, 3}", 8,
+                                             own_bucket=True, **neg_args),
         # documents the virtual-clock assumption: a sleeper that wakes late bunches its message with the next ones
         "neg_late_wakeup": pool.submit(mc, ctx, "neg_late_wakeup", W2, "{1, 2}", "{1, 2}", "{3}", "{0}", "{1, 2, 3}", 6, prompt=False, **neg_args),
     }
@@ -117,9 +121,11 @@ def run_impl(ctx, q, pool, pos, neg):
     lib.collect_go(ctx, us)
     go_keys = sorted({v["key"] for v in tr.get("violations", []) + us.get("violations", [])})
     st = tr["stats"]
-    ctx.log("harness: %d scenarios, %d tx + %d rx events, %d virtual s; server.ActiveUser: %d scenarios, %d events; violations %s" % (
+    ctx.log("harness: %d scenarios, %d tx + %d rx events, %d virtual s; server.ActiveUser: %d scenarios (%d racing, %d overlapped inside "
+            "AuthenticateUser, %d with split user records), %d events; violations %s" % (
         st.get("scenarios", 0), st.get("events_tx", 0), st.get("events_rx", 0), st.get("virtual_s", 0),
-        us["stats"].get("scenarios", 0), us["stats"].get("trace_events", 0), go_keys))
+        us["stats"].get("scenarios", 0), us["stats"].get("racing_scenarios", 0), us["stats"].get("racing_overlapped", 0),
+        us["stats"].get("racing_split_records", 0), us["stats"].get("trace_events", 0), go_keys))
     if st.get("dead_scenarios", 0) or us["stats"].get("dead_scenarios", 0):
         raise lib.Inconclusive("a scenario moved no data: %s" % tr.get("notes"))
     if st.get("drift", 0) or st.get("bucket_behaviours", 0) != len(behaviours):
@@ -179,7 +185,9 @@ def run_impl(ctx, q, pool, pos, neg):
                 "one valve, write sizes {1,100,1400,16000, 3 frames}, backlogged / bursty / mixed writers, TLS-record or message links, "
                 "3 AEADs, 10-40 virtual seconds) run on the real Session/switchboard/ratelimit code in a synctest bubble; every pair of "
                 "recorded events is an interval checked by the driver, and TLC checks every interval through the virtual-queue invariant; "
-                "plus 2 (thorough: 4) scenarios whose sessions are made by server.userPanel.GetUser / ActiveUser.GetSession; "
+                "plus 4 (thorough: 8) scenarios whose sessions are made by server.userPanel.GetUser / ActiveUser.GetSession, half of them "
+                "with the user's first 2-4 connections arriving together (all GetUser calls held inside AuthenticateUser at a barrier "
+                "when the tree admits them there together), the bound evaluated over all of the user's sessions; "
                 "non-trivial = the bucket ran dry (more than one burst passed); distinct = distinct scenario parameters. "
                 "Also counted: TokenBucketGen behaviours (random walks of the model, 12-16 Takes by 3 waiters) replayed on a real "
                 "ratelimit.Bucket with a scripted clock in 4 clock concretisations, non-trivial = at least one Take had to wait",
